@@ -100,7 +100,7 @@ func ruleC19(w *World) {
 	if kmacT != nil {
 		if f := w.method(kmacT, "ComputeHash"); f != nil {
 			recv := f.Params[0]
-			instrs(f, func(ins ssa.Instruction) {
+			instrsFlat(f, func(ins ssa.Instruction) {
 				c, ok := ins.(ssa.CallInstruction)
 				if !ok || !c.Common().IsInvoke() {
 					return
@@ -175,7 +175,7 @@ func ruleC19(w *World) {
 				continue
 			}
 			isInit := fn.Name() == "init" || strings.HasPrefix(fn.Name(), "init#") || allCallersInit(w, fn) && len(w.callersOf(fn)) > 0
-			instrs(fn, func(ins ssa.Instruction) {
+			instrsFlat(fn, func(ins ssa.Instruction) {
 				st, ok := ins.(*ssa.Store)
 				if !ok {
 					return
